@@ -24,7 +24,7 @@ JUDGE = 'roundtrip'
 
 
 def time_limit(tier):
-    return 900 if tier == 'quick' else 5400
+    return common.default_limit(tier)
 
 
 def budget(tier):
